@@ -411,6 +411,162 @@ def exec_case(case):
     return out
 
 
+async def _director_case(case, tree, root, rng, out, bad):
+    """api.glob -> director.register_glob -> process_nglob_changes -> rescan_nglobs on a real Workflow."""
+    from stepup.core import api
+    from stepup.core.director import DirectorHandler
+    from stepup.core.enums import Need
+    from stepup.core.sqlite3 import DBSession
+    from stepup.core.startup import rescan_nglobs
+    from stepup.core.step import Step
+    from stepup.core.workflow import Workflow
+
+    pre, am = set(case["pre"]), set(case["am"])
+    all_idx = {**{show(tuple(p), "file"): 2 * (i + 1) - 1 for i, p in enumerate(UNIVERSE)},
+               **{show(tuple(p), "dir"): 2 * (i + 1) for i, p in enumerate(UNIVERSE)}}
+
+    def spec_scan(tr):
+        return {s for s, i in entries(tr).items() if i in pre and i in am}
+
+    captured = []
+
+    class _Call:
+        def __getattr__(self, name):
+            def f(*a, **k):
+                captured.append((name, a, k))
+            return f
+
+    class _Client:
+        call = _Call()
+
+    class _Sched:
+        def __init__(self, step):
+            self.step = step
+
+        def get_job_step(self, job_i):
+            return self.step
+
+    class _Self:
+        pass
+
+    async def reporter(*a, **k):
+        return None
+
+    with DBSession.open(":memory:") as db:
+        wf = Workflow(db, dir_queue=None)
+        await wf.initialize()
+        async with db:
+            wf.declare_static_files(wf.root, ["plan.py"])
+            wf.define_step(wf.root, "./plan.py", inp_paths=["plan.py"], need=Need.PLAN)
+            plan = wf.find(Step, "./plan.py")
+        real_get = api.get_rpc_client
+        api.get_rpc_client = lambda path=None: _Client()
+        os.environ["STEPUP_ROOT"] = root
+        os.environ["HERE"] = "."
+        try:
+            api.glob(case["pattern"], **case["subs"])
+        except Exception as exc:  # noqa: BLE001
+            bad("api_glob_failed", f"{type(exc).__name__}: {exc}", tree)
+            return
+        finally:
+            api.get_rpc_client = real_get
+        name, a, _ = captured[-1]
+        me = _Self()
+        me.db, me.workflow, me.scheduler = db, wf, _Sched(plan)
+        try:
+            await DirectorHandler.register_glob(me, *a)
+        except Exception as exc:  # noqa: BLE001
+            bad("register_glob_failed", f"{type(exc).__name__}: {exc}", tree)
+            return
+
+        async def recorded():
+            async with db:
+                regs = list(wf.nglob_registrations())
+            return {str(p) for _, ng, _ in regs for p in ng.files()}
+
+        want = spec_scan(tree)
+        got = await recorded()
+        if got != want:
+            bad("director_records_other_matches_than_specification", {"stage": "register_glob", "missing": sorted(want - got)[:6], "extra": sorted(got - want)[:6]}, tree)
+            return
+        # the relevance test of the watcher
+        async with db:
+            rel = {s for s in all_idx if wf.matches_any_glob(s)}
+        rel_spec = {s for s, i in all_idx.items() if i in am}
+        if rel != rel_spec:
+            bad("matches_any_glob_differs_from_specification", {"code_only": sorted(rel - rel_spec)[:6], "spec_only": sorted(rel_spec - rel)[:6]}, tree)
+        # a batch of changes through the watch route, then a restart scan
+        cur = dict(tree)
+        rec = set(got)
+        for route in ("watch", "restart", "watch", "restart"):
+            added, deleted = set(), set()
+            for _ in range(rng.choice([1, 2, 3])):
+                if rng.random() < 0.5:
+                    cands = [p for p in map(tuple, UNIVERSE) if p not in cur and (len(p) == 1 or cur.get(p[:-1]) == "dir")]
+                    if not cands:
+                        continue
+                    p = rng.choice(cands)
+                    kind = rng.choice(["file", "file", "dir"])
+                    cur[p] = kind
+                    full = os.path.join(root, *p)
+                    os.mkdir(full) if kind == "dir" else open(full, "w").close()
+                    added.add(show(p, kind)); deleted.discard(show(p, kind))
+                else:
+                    cands = [p for p in cur if not any(q[: len(p)] == p and len(q) > len(p) for q in cur)]
+                    if not cands:
+                        continue
+                    p = rng.choice(cands)
+                    kind = cur.pop(p)
+                    full = os.path.join(root, *p)
+                    os.rmdir(full) if kind == "dir" else os.unlink(full)
+                    deleted.add(show(p, kind)); added.discard(show(p, kind))
+            if route == "watch":
+                # the watcher only forwards paths that pass the relevance test
+                upd = {x for x in added if all_idx[x] in am}
+                dele = {x for x in deleted if all_idx[x] in am}
+                async with db:
+                    wf.process_nglob_changes(dele, upd)
+                rec = (rec | upd) - dele
+            else:
+                await rescan_nglobs(wf, reporter)
+                rec = spec_scan(cur)
+            got = await recorded()
+            if got != rec:
+                bad("director_records_other_matches_than_specification",
+                    {"stage": route, "added": sorted(added), "deleted": sorted(deleted), "missing": sorted(rec - got)[:6], "extra": sorted(got - rec)[:6]}, cur)
+                return
+        out["director"] = out.get("director", 0) + 1
+
+
+def exec_director_case(case):
+    import asyncio
+
+    rng = random.Random(case["seed"] + 77)
+    out = {"id": case["id"], "bad": [], "director": 0}
+    base = tempfile.mkdtemp(prefix="c17d-", dir=os.environ.get("VERIF_SCRATCH"))
+    old = os.getcwd()
+    old_env = dict(os.environ)
+
+    def bad(clause, subj, tree):
+        out["bad"].append({"clause": clause, "subj": subj, "tree": sorted(show(p, k) for p, k in tree.items())})
+
+    try:
+        for ti in range(2):
+            tree = random_tree(rng)
+            root = os.path.join(base, f"t{ti}")
+            os.makedirs(root)
+            materialise(root, tree)
+            os.chdir(root)
+            asyncio.run(_director_case(case, tree, root, rng, out, bad))
+            os.chdir(old)
+    finally:
+        os.chdir(old)
+        os.environ.clear()
+        os.environ.update(old_env)
+        shutil.rmtree(base, ignore_errors=True)
+    return out
+
+
 # ---------------------------------------------------------------------------------------------
 # main
 # ---------------------------------------------------------------------------------------------
@@ -521,6 +677,21 @@ def main(argv=None):
                 replay["tree"] = b["tree"]
                 report.add_violation(b["clause"], json.dumps({"pattern": case["pattern"], "subs": case["subs"], **(b["subj"] if isinstance(b["subj"], dict) else {"detail": b["subj"]})}, sort_keys=True)[:600],
                                      replay, tid=f"p{case['id']}")
+        # the director side: api.glob -> register_glob -> process_nglob_changes / rescan_nglobs
+        dcases = [c for c in cases if c["names"] or "/" in c["pattern"]]
+        dcases = dcases if args.tier == "thorough" else rng.sample(dcases, min(len(dcases), 160))
+        ndir = 0
+        for (kind, r), case in zip(pmap(exec_director_case, dcases), dcases):
+            if kind == "err":
+                report.machinery("director harness crashed: " + r[:1500])
+                continue
+            ndir += r["director"]
+            for b in r["bad"]:
+                replay = {k: case[k] for k in ("pattern", "subs", "seed")}
+                replay["tree"] = b["tree"]
+                report.add_violation(b["clause"], json.dumps({"pattern": case["pattern"], "subs": case["subs"], **(b["subj"] if isinstance(b["subj"], dict) else {"detail": b["subj"]})}, sort_keys=True)[:600],
+                                     replay, tid=f"d{case['id']}")
+        report.coverage["director_level_runs"] = ndir
         if f18:
             report.violations.append({"clause": "directory_not_recorded_for_non_star_ending", "subj": f"{f18} (pattern, tree) pairs",
                                       "kf": "F18-directory-dropped-unless-pattern-ends-in-star", "line": 0, "tid": "", "case": None})
